@@ -8,6 +8,7 @@
 
 #include <foonathan/memory/joint_allocator.hpp>
 #include <foonathan/memory/memory_pool.hpp>
+#include <foonathan/memory/memory_resource_adapter.hpp>
 #include <foonathan/memory/smart_ptr.hpp>
 
 #include <verif/child.hpp>
@@ -209,6 +210,21 @@ namespace
             shared_run<E<24, 8>>();
             shared_run<E<128, 16>>();
             Ev("cend").u("leaf_live", 0).u("max_node_req", 0).u("constant", 0).s("name", "pool");
+            return;
+        }
+        if (x.str("cont") == "pmreq")
+        {
+            // memory_resource_adapter: two adapters over different allocator objects are different resources (a
+            // polymorphic_allocator container treats equal resources as interchangeable); an adapter equals itself
+            fm::memory_resource_adapter<fm::allocator_reference<vleaf>> ra(fm::make_allocator_reference(la)),
+                rb(fm::make_allocator_reference(lb));
+            const fm::memory_resource& ma = ra;
+            const fm::memory_resource& mb = rb;
+            Ev("cbox").s("name", name).b("ok", true).i("prop", 7).b("single", false);
+            Ev("ceq").i("a", 0).i("c", 1).i("eq", ma.is_equal(mb) ? 1 : 0).i("ba", 0).i("bc", 1);
+            Ev("ceq").i("a", 1).i("c", 0).i("eq", mb == ma ? 1 : 0).i("ba", 1).i("bc", 0);
+            Ev("ceq").i("a", 0).i("c", 0).i("eq", ma.is_equal(ma) ? 1 : 0).i("ba", 0).i("bc", 0);
+            Ev("cend").u("leaf_live", 0).u("max_node_req", 0).u("constant", 0).s("name", "pmreq");
             return;
         }
         if (x.str("cont") == "anyeq")
